@@ -36,3 +36,6 @@ func Ite64(c bool, a, b uint64) uint64
 func MakeCap(n int)
 func NewKV() *badger.DB
 func KVConflicts()
+func SizedBlob(n int) []byte
+func Go(f func())
+func Wait()
